@@ -197,16 +197,6 @@ pub fn object_obs(h: &mut HitObject) -> Vec<(&'static str, String)> {
 // known classes: decidable predicates on the decoded map
 // ---------------------------------------------------------------------------
 
-fn d2_object(h: &HitObject) -> bool {
-    match &h.kind {
-        HitObjectKind::Slider(s) => {
-            let cps = s.path.control_points();
-            cps.len() > 1 && cps.last().map_or(false, |p| p.path_type.is_some())
-        }
-        _ => false,
-    }
-}
-
 fn typed_kinds(h: &HitObject) -> Vec<(usize, SplineType, Option<i32>)> {
     match &h.kind {
         HitObjectKind::Slider(s) => s
@@ -237,20 +227,60 @@ fn consecutive_catmull(h: &HitObject) -> bool {
     t.windows(2).any(|w| w[0].1 == SplineType::Catmull && w[1].1 == SplineType::Catmull)
 }
 
-/// D17: a one-point segment that repeats the previous segment's type (not Catmull, not
-/// a perfect curve): the typed control point is the last one or is directly followed
-/// by another typed control point
+/// D17: a segment boundary written implicitly (repeated point, because the segment
+/// repeats the previous segment's type; not Catmull, not a perfect curve) that is not
+/// read back: the typed control point is the last one, or is directly followed by
+/// another typed control point, or lies on its predecessor
 fn d17_object(h: &HitObject) -> bool {
-    let n = match &h.kind {
-        HitObjectKind::Slider(s) => s.path.control_points().len(),
+    let cps = match &h.kind {
+        HitObjectKind::Slider(s) => s.path.control_points(),
         _ => return false,
     };
+    let n = cps.len();
     let t = typed_kinds(h);
     (1..t.len()).any(|k| {
         let (i, kind, deg) = t[k];
         let (_, pk, pd) = t[k - 1];
-        kind == pk && deg == pd && kind != SplineType::Catmull && kind != SplineType::PerfectCurve && (i + 1 == n || t.get(k + 1).map_or(false, |x| x.0 == i + 1))
+        kind == pk
+            && deg == pd
+            && kind != SplineType::Catmull
+            && kind != SplineType::PerfectCurve
+            && (i + 1 == n || t.get(k + 1).map_or(false, |x| x.0 == i + 1) || cps[i].pos == cps[i - 1].pos)
     })
+}
+
+/// D19: the input sets the mode after records that depend on it were read
+/// (a `Mode` record of [General] after a [TimingPoints] / [HitObjects] record)
+pub fn mode_after_use(text: &str) -> bool {
+    let mut sec = "";
+    let mut used = false;
+    for raw in text.lines() {
+        let l = raw.trim_end();
+        match l {
+            "[TimingPoints]" | "[HitObjects]" => {
+                sec = "use";
+                continue;
+            }
+            "[General]" => {
+                sec = "g";
+                continue;
+            }
+            "[Editor]" | "[Metadata]" | "[Difficulty]" | "[Events]" | "[Colours]" | "[Variables]" | "[CatchTheBeat]" | "[Mania]" => {
+                sec = "x";
+                continue;
+            }
+            _ => {}
+        }
+        if l.is_empty() || l.trim_start().starts_with("//") {
+            continue;
+        }
+        if sec == "use" {
+            used = true;
+        } else if sec == "g" && used && l.split(':').next().map_or(false, |k| k.trim() == "Mode") {
+            return true;
+        }
+    }
+    false
 }
 
 /// D12: taiko/mania map with a scroll speed below the slider-velocity floor 0.1
@@ -342,6 +372,7 @@ pub fn oracle(text: &str, origin: &str, out: &mut Out) {
     sample_times(&m1, &mut ts);
     sample_times(&m2, &mut ts);
     let d12 = d12_class(&m1);
+    let d19 = mode_after_use(text);
     let (mut sv_bad, mut kiai_bad, mut scroll_bad) = (None, None, None);
     for &t in &ts {
         out.oracle_checks += 1;
@@ -362,18 +393,19 @@ pub fn oracle(text: &str, origin: &str, out: &mut Out) {
         out.fail("", &desc, &format!("kiai timeline differs at t={}: {} vs {}", t, kiai_at(&m1, t), kiai_at(&m2, t)));
     }
     if let Some(t) = scroll_bad {
-        out.fail(if d12 { "D12" } else { "" }, &desc, &format!("scroll-speed timeline differs at t={}: {} vs {}", t, scroll_at(&m1, t), scroll_at(&m2, t)));
+        out.fail(if d19 { "D19" } else if d12 { "D12" } else { "" }, &desc, &format!("scroll-speed timeline differs at t={}: {} vs {}", t, scroll_at(&m1, t), scroll_at(&m2, t)));
     }
     // hit objects.  An object whose encoded line is rejected on re-read is lost (C04's
     // business; known for the D2 class): it is reported and left out of the expectation.
     let rejected = c04::rejected_object_lines(&enc, m1.format_version);
     let mut exp: Vec<HitObject> = vec![];
     let mut n_lost = 0;
+    let lost_cls = m1.hit_objects.iter().map(c04::lost_class).find(|c| !c.is_empty()).unwrap_or("");
     for (i, h) in m1.hit_objects.iter().enumerate() {
         out.oracle_checks += 1;
         if rejected.get(i).copied().unwrap_or(false) {
             n_lost += 1;
-            out.fail(if d2_object(h) { "D2" } else { "" }, &desc, &format!("object #{} (start {}) is lost: its encoded line is rejected on re-read", i, h.start_time));
+            out.fail(c04::lost_class(h), &desc, &format!("object #{} (start {}) is lost: its encoded line is rejected on re-read", i, h.start_time));
         } else {
             exp.push(h.clone());
         }
@@ -402,12 +434,14 @@ pub fn oracle(text: &str, origin: &str, out: &mut Out) {
                     continue;
                 }
                 // a lost object earlier in the list can move a forced new-combo flag
-                let cls = if path_item && d13 {
+                let cls = if d19 && matches!(*n, "curve_path" | "curve_lengths" | "velocity") {
+                    "D19"
+                } else if path_item && d13 {
                     "D13"
                 } else if path_item && d17 {
                     "D17"
                 } else if n_lost > 0 && *n == "new_combo" {
-                    "D2"
+                    lost_cls
                 } else {
                     ""
                 };
